@@ -3,29 +3,44 @@ From Coq Require Import Arith Bool List.
 From FC Require Import Model.Compare Model.Cli Proofs.CliP.
 Import ListNotations.
 
-Theorem C20_junit_counts : forall s,
-  let j := junit_of s in
+Theorem C20_junit_counts : forall syn s,
+  let j := junit_of syn s in
   j_tests j = length (j_cases j) /\
   j_failures j = length (filter (fun c => match snd c with [0] => true | _ => false end) (j_cases j)) /\
   j_errors j = length (filter (fun c => match snd c with [0; 1] => true | _ => false end) (j_cases j)) /\
   j_skipped j = length (filter (fun c => match snd c with [2] => true | _ => false end) (j_cases j)) /\
-  map fst (j_cases j) = map fst (ts_tests s).
+  map fst (j_cases j) = map fst (junit_tests syn s).
 Proof. exact junit_counts. Qed.
 Print Assumptions C20_junit_counts.
 
-Theorem C20_junit_failure_iff_tests : forall s, junit_has_failure (junit_of s) = negb (tests_ok (ts_tests s)).
-Proof. exact junit_failure_iff_tests. Qed.
-Print Assumptions C20_junit_failure_iff_tests.
+(* one test case per reported comparison (plus at most one case carrying the verdict of a suite that failed as a whole) *)
+Theorem C20_junit_cases_are_reports : forall syn s,
+  junit_tests syn s = ts_tests s \/
+  (junit_tests syn s = ts_tests s ++ [(syn, tsuite_status s)] /\ tsuite_bool s = false /\ tests_ok (ts_tests s) = true).
+Proof. exact junit_cases_are_reports. Qed.
+Print Assumptions C20_junit_cases_are_reports.
 
-Theorem C20_junit_agrees_with_exit : forall s,
-  (ts_status s = None \/ tsuite_bool s = tests_ok (ts_tests s)) ->
-  (junit_has_failure (junit_of s) = true <-> exit_code (tsuite_bool s) <> 0).
+(* full statement (no guard since the repair of F-C20a): failure/error element iff non-zero exit code *)
+Theorem C20_junit_agrees_with_exit : forall syn s,
+  consistent s -> (junit_has_failure (junit_of syn s) = true <-> exit_code (tsuite_bool s) <> 0).
 Proof. exact junit_agrees_with_exit. Qed.
 Print Assumptions C20_junit_agrees_with_exit.
 
-Theorem C20_junit_skipped_exact : forall is ir S n st,
+(* all suites the CLI produces are consistent: field-comparison suites, status-only suites, merged sequence suites *)
+Theorem C20_cli_suites_consistent : forall is ir S,
+  consistent (to_tsuite is ir S) /\ (forall st, consistent {| ts_status := Some st; ts_tests := [] |}) /\
+  (forall s1 s2, consistent s1 -> consistent s2 -> consistent (merge_suites s1 s2)).
+Proof.
+  intros is ir S. split; [|split].
+  - unfold consistent, to_tsuite. destruct (dom_ok S); simpl; [|reflexivity]. unfold tsuite_bool. simpl. tauto.
+  - intros st H. reflexivity.
+  - intros s1 s2 C1 C2. exact (proj2 (merge_bool s1 s2 C1 C2)).
+Qed.
+Print Assumptions C20_cli_suites_consistent.
+
+Theorem C20_junit_skipped_exact : forall syn is ir S n st,
   dom_ok S = true -> In (n, st) (entries S) ->
-  (In (n, [2]) (j_cases (junit_of (to_tsuite is ir S))) <->
+  (In (n, [2]) (j_cases (junit_of syn (to_tsuite is ir S))) <->
    In (n, Filtered) (entries S) \/ (In (n, MissingSource) (entries S) /\ is = true) \/
    (In (n, MissingReference) (entries S) /\ ir = true)).
 Proof. exact junit_skipped_exact. Qed.
@@ -33,7 +48,9 @@ Print Assumptions C20_junit_skipped_exact.
 
 Example C20_nonvacuous :
   let s := {| ts_status := None; ts_tests := [(0, TPassed); (1, TFailed); (2, TError); (3, TSkipped)] |} in
-  junit_of s = {| j_tests := 4; j_failures := 1; j_errors := 1; j_skipped := 1;
-                  j_cases := [(0, []); (1, [0]); (2, [0; 1]); (3, [2])] |} /\
-  junit_has_failure (junit_of s) = true /\ exit_code (tsuite_bool s) = 1.
+  let d := {| ts_status := Some TError; ts_tests := [] |} in
+  junit_of 9 s = {| j_tests := 4; j_failures := 1; j_errors := 1; j_skipped := 1;
+                    j_cases := [(0, []); (1, [0]); (2, [0; 1]); (3, [2])] |} /\
+  junit_has_failure (junit_of 9 s) = true /\ exit_code (tsuite_bool s) = 1 /\
+  junit_of 9 d = {| j_tests := 1; j_failures := 0; j_errors := 1; j_skipped := 0; j_cases := [(9, [0; 1])] |}.
 Proof. vm_compute. repeat split; reflexivity. Qed.
